@@ -329,4 +329,110 @@ example : Reachable sDue ∧ sDue.jobEvs = [] ∧ sDue.faults = [] ∧
     (findJob sDue.jobs (keyName "ns/i")).map (fun j => (j.isQueued, decide (due j sDue.clock)))
       = some (true, true) := ⟨sDue_reachable, by decide, by decide, by decide, by decide⟩
 
+/-! ### 6. `startAfter` postponed by the user while the controller's cache is stale
+
+`Act.editStartAfter` (Proofs/QueueEnv.lean): the user may set, clear, postpone or advance
+`spec.startPolicy.startAfter` of a Job as long as it is not started.  The reconcilers decide on the
+CACHED copy; what keeps a start write from landing before the NEW `startAfter` is the
+resourceVersion the write carries (`apiWriteJob`: `cur.rv ≠ cached.rv` ⇒ conflict).  Gap exposed by
+seeded change C07w2-2 (a `StartJob` that re-reads the Job from the server and writes on that copy):
+before, no action of the envelope changed `startAfter`, so the theorems above could not tell the
+cached from the authoritative value. -/
+
+/-- whatever the cache holds: a Job whose AUTHORITATIVE `startAfter` is still in the future is not
+started by either worker in a reachable state (no start call for it is logged "ok") -/
+theorem postponed_never_started_reachable {s : Sys} (h : Reachable s) {n : String} {cur : JobV}
+    {t : Int} (hcur : findJob s.jobs n = some cur) (ht : cur.startAfter = some t)
+    (hl : s.clock < t * 1000000000) :
+    ⟨"start", n, "ok"⟩ ∉ (workConfig s).1.calls ∧
+    ⟨"start", n, "ok"⟩ ∉ (workIndependent s).1.calls := by
+  constructor
+  · intro hc
+    obtain ⟨j, hf, _, _, hsa, _⟩ := never_before_startAfter_reachable h n hc
+    rw [hcur] at hf; cases hf
+    have := hsa t ht; omega
+  · intro hc
+    obtain ⟨_, j, hf, _, _, _, hsa, _⟩ := never_before_startAfter_independent_reachable h n "start" hc
+    rw [hcur] at hf; cases hf
+    have := hsa t ht; omega
+
+/-- in a reachable state a cached version whose `startAfter` differs from the authoritative one
+carries a stale resourceVersion ((name, rv) identifies the version) -/
+theorem stale_startAfter_stale_rv {s : Sys} (h : Reachable s) {j cur : JobV} (hj : j ∈ s.jobCache)
+    (hcur : findJob s.jobs j.name = some cur) (hne : cur.startAfter ≠ j.startAfter) :
+    cur.rv ≠ j.rv :=
+  fun hrv => hne (by rw [h.inv.cached_eq_cur hj hcur hrv])
+
+/-- a start write computed from a cached copy with a stale resourceVersion is refused with a
+conflict (no fault injected): nothing is written -/
+theorem stale_start_conflict (s : Sys) (hf : s.faults = []) {j cur : JobV}
+    (hcur : findJob s.jobs j.name = some cur) (hrv : cur.rv ≠ j.rv) :
+    startJobWrite s j = (failWrite s "start" j.name "conflict", false) := by
+  unfold startJobWrite apiWriteJob popFault
+  simp [hf, hcur, hrv, failWrite]
+
+/-- independent worker, reachable state, no fault injected: the cached copy of the Job is queued
+and DUE, but the user has moved `startAfter` on the server and the update has not reached the
+cache.  The step logs exactly one start call, refused with a conflict, returns an error (so the key
+is re-queued: `err_requeued_independent`) and leaves every authoritative Job as it is. -/
+theorem postponed_stale_cache_conflict_independent {s : Sys} (h : Reachable s) (hf : s.faults = [])
+    {k : String} {q1 : WQ} {j cur : JobV}
+    (hg : (s.indQ.advance s.clock).get = some (k, q1))
+    (hj : findJob s.jobCache (keyName k) = some j) (hq : j.isQueued = true) (hd : due j s.clock)
+    (hcur : findJob s.jobs j.name = some cur) (hne : cur.startAfter ≠ j.startAfter) :
+    (workIndependent s).2 = "err" ∧
+    (workIndependent s).1.calls = [⟨"start", j.name, "conflict"⟩] ∧
+    (workIndependent s).1.jobs = s.jobs := by
+  have hrv := stale_startAfter_stale_rv h (findJob_some_mem hj) hcur hne
+  have hsync : syncIndependent (indPre s q1) (keyName k) =
+      (failWrite (indPre s q1) "start" j.name "conflict", false) := by
+    rw [syncIndependent_due (s := indPre s q1) hj hq hd]
+    exact stale_start_conflict (indPre s q1) hf hcur hrv
+  rw [workIndependent_get hg, hsync]
+  exact ⟨rfl, rfl, rfl⟩
+
+/-- the postponed history: `histWait` (owned Job `a` and independent Job `i`, both with
+`startAfter = 5 s`, delivered), both workers run and arm their timers for 5 s, then the user
+postpones both Jobs to 3600 s; the two update events are NOT delivered; the clock reaches 5 s -/
+def histPostponed : List Act :=
+  histWait ++ [.workConfig, .workIndependent, .editStartAfter "a" (some 3600),
+    .editStartAfter "i" (some 3600), .tick 5000000000]
+def sPostponed : Sys := runActs {} histPostponed
+theorem sPostponed_reachable : Reachable sPostponed := reachable_runB _ (by decide)
+
+/-- non-vacuous: in the reachable state `sPostponed` the cache holds the old `startAfter = 5 s`
+(due at clock 5 s) and the server the later one; both timers fire; each worker logs a refused
+start (conflict), returns an error, and no Job is started -/
+example : Reachable sPostponed ∧ sPostponed.clock = 5000000000 ∧ sPostponed.faults = [] ∧
+    (findJob sPostponed.jobCache "a").map (·.startAfter) = some (some 5) ∧
+    (findJob sPostponed.jobs "a").map (·.startAfter) = some (some 3600) ∧
+    (findJob sPostponed.jobCache "i").map (·.startAfter) = some (some 5) ∧
+    (findJob sPostponed.jobs "i").map (·.startAfter) = some (some 3600) ∧
+    (workConfig sPostponed).2 = "err" ∧
+    (workConfig sPostponed).1.calls = [⟨"start", "a", "conflict"⟩] ∧
+    (workIndependent sPostponed).2 = "err" ∧
+    (workIndependent sPostponed).1.calls = [⟨"start", "i", "conflict"⟩] ∧
+    (findJob (workConfig sPostponed).1.jobs "a").map (·.startTime) = some none ∧
+    (findJob (workIndependent sPostponed).1.jobs "i").map (·.startTime) = some none :=
+  ⟨sPostponed_reachable, by decide, by decide, by decide, by decide, by decide, by decide,
+    by decide, by decide, by decide, by decide, by decide, by decide⟩
+
+/-- … and the hypotheses of `postponed_stale_cache_conflict_independent` are met there -/
+example : (sPostponed.indQ.advance sPostponed.clock).get.map (·.1) = some "ns/i" ∧
+    (findJob sPostponed.jobCache (keyName "ns/i")).map
+      (fun j => (j.isQueued, decide (due j sPostponed.clock))) = some (true, true) := by decide
+
+/-- the updates delivered and both keys worked once more (the event's pass and, one second later,
+the rate-limited retry) -/
+def sPostponedSeen : Sys :=
+  runActs sPostponed ([.workConfig, .workIndependent] ++ flush ++ flush ++
+    [.workConfig, .workIndependent, .tick 1000000000])
+
+/-- once the updates are delivered the Jobs wait for the new time: nothing is started and the
+timers are armed for 3600 s -/
+example : (workConfig sPostponedSeen).1.calls = [] ∧ (workIndependent sPostponedSeen).1.calls = [] ∧
+    (workConfig sPostponedSeen).1.cfgQ.delayed = [("ns/c", 3600000000000)] ∧
+    (workIndependent sPostponedSeen).1.indQ.delayed = [("ns/i", 3600000000000)] :=
+  ⟨by decide +kernel, by decide +kernel, by decide +kernel, by decide +kernel⟩
+
 end Furiko.Props.C07
